@@ -92,7 +92,8 @@ static int slotOf(long long x) { return (int)(((x % 3) + 3) % 3); }
 struct Flags {
 	int ops = 0, chain_mut = 0, head_rm = 0, nonhead_rm = 0, rehash = 0, eq_equal = 0, eq_equal_difforder = 0, eq_unequal = 0,
 	    eq_unequal_samelen = 0, eq_values_only = 0, merges = 0, merge_overlap = 0, clones = 0, clone_then_mut = 0, maxlen = 0,
-	    algebra = 0, tablesizes = 0, removed_present = 0, overwrites = 0, front_insert = 0, mid_insert = 0;
+	    algebra = 0, tablesizes = 0, removed_present = 0, overwrites = 0, front_insert = 0, mid_insert = 0, convs = 0,
+	    conv_reordered = 0, conv_merged = 0, eq_default_moved = 0;
 	unsigned small_found = 0, small_nf = 0;
 	bool cloned[3] = {false, false, false};
 };
@@ -132,6 +133,167 @@ static void note_chain(const H& c, const K& k, bool removal, Flags& F)
 
 // ---------------------------------------------------------------------------------------------
 // map-like kinds
+
+// ---------------------------------------------------------------------------------------------
+// converting constructors Map<K,T>(const Map<K2,T2>&), Dic<T>(const Map<K2,T2>&), Dic<T>(const Dic<T2>&): a map built from a map
+// of another key type is again an ordered finite map -- ascending in the TARGET key order, every converted key found, each
+// distinct converted key present once -- and stays one under a few ordinary ops (overwrite / remove of existing keys, ==).
+
+static std::string cstr(const String& s) { return std::string(*s, (size_t)s.length()); }
+
+// MT = Map<String,int> or Dic<int>; sm = the source's contents with keys converted by String(int) (an injective conversion)
+template <class MT>
+static void check_conv_str(MT& d, std::map<std::string, int> sm, const std::set<int>& probes, const char* what, const vf::Op& o)
+{
+	auto verify = [&](const char* after) {
+		VF_CHECK(d.length() == (int)sm.size(), what, " ", after, ": length() = ", d.length(), ", expected ", sm.size(), " distinct keys");
+		Array<String> ks = d.keys();
+		VF_CHECK(ks.length() == (int)sm.size(), what, " ", after, ": keys() has ", ks.length(), " elements, expected ", sm.size());
+		typename Map<String, int>::Enumerator e = d.all();
+		int i = 0;
+		for (auto& kv : sm) {
+			VF_CHECK(cstr(ks[i]) == kv.first, what, " ", after, ": keys()[", i, "] is ", vf::show(cstr(ks[i])), ", expected ", vf::show(kv.first), " (ascending String order)");
+			VF_CHECK((bool)e, what, " ", after, ": enumeration ends after ", i, " of ", sm.size(), " entries");
+			VF_CHECK(cstr(~e) == kv.first && *e == kv.second, what, " ", after, ": enumeration position ", i, " is ", vf::show(cstr(~e)), "=>", *e, ", expected ",
+			         vf::show(kv.first), "=>", kv.second);
+			++e;
+			i++;
+			String k(kv.first.c_str());
+			const int* p = ((const MT&)d).find(k);
+			VF_CHECK(d.has(k) && p != 0, what, " ", after, ": present key ", vf::show(kv.first), " is not found (has ", d.has(k), ", find ", p != 0, ")");
+			VF_CHECK(*p == kv.second, what, " ", after, ": value of key ", vf::show(kv.first), " is ", *p, ", expected ", kv.second);
+		}
+		VF_CHECK(!(bool)e, what, " ", after, ": enumeration visits more than ", sm.size(), " entries");
+		for (int u : probes) {
+			String k(u);
+			if (!sm.count(cstr(k)))
+				VF_CHECK(!d.has(k) && d.find(k) == 0, what, " ", after, ": absent key ", vf::show(cstr(k)), " is found");
+		}
+	};
+	verify("after construction");
+	if (sm.empty())
+		return;
+	auto nth = [&](long long j) {
+		long long n = (long long)sm.size();
+		auto it = sm.begin();
+		std::advance(it, (size_t)(((j % n) + n) % n));
+		return it->first;
+	};
+	std::string k1 = nth(o.i(1)), k2 = nth(o.i(2)), k3 = nth(o.i(3));
+	d[String(k1.c_str())] = 91;
+	sm[k1] = 91;
+	d.set(String(k2.c_str()), 92);
+	sm[k2] = 92;
+	verify("after overwriting two existing keys");
+	bool r = d.remove(String(k3.c_str()));
+	sm.erase(k3);
+	VF_CHECK(r, what, ": remove(", vf::show(k3), ") of an existing key returned false");
+	verify("after removing an existing key");
+	Map<String, int> ref;
+	for (auto it = sm.rbegin(); it != sm.rend(); ++it)
+		ref[String(it->first.c_str())] = it->second;
+	VF_CHECK(d == ref && ref == d && !(d != ref) && !(ref != d), what, ": the converted map does not compare equal to a map with the same ", sm.size(),
+	         " entries built by plain insertions");
+}
+
+static void check_conversions(const Map<int, int>& c, const std::map<int, int>& m, const std::set<int>& probes, const vf::Op& o, Flags& F)
+{
+	F.convs++;
+	// (1) int keys -> String keys: numeric order is not String order ("256" < "3", "-1" < "-2", "10" < "9")
+	std::map<std::string, int> sm;
+	bool reordered = false;
+	{
+		std::string prev;
+		bool first = true;
+		for (auto& kv : m) {
+			std::string t = cstr(String(kv.first));
+			sm[t] = kv.second;
+			if (!first && !(prev < t))
+				reordered = true;
+			prev = t;
+			first = false;
+		}
+	}
+	if (sm.size() == m.size()) { // String(int) is injective on these keys (always, unless String(int) itself is broken: C03's business)
+		if (reordered)
+			F.conv_reordered++;
+		{
+			Map<String, int> d(c);
+			check_conv_str(d, sm, probes, "Map<String,int>(Map<int,int>)", o);
+		}
+		{
+			Dic<int> d(c);
+			Dic<double> dd(d); // value-converting form Dic<T>(const Dic<T2>&)
+			VF_CHECK(dd.length() == (int)sm.size(), "Dic<double>(Dic<int>): length() = ", dd.length(), ", expected ", sm.size());
+			Array<String> ks = dd.keys();
+			int i = 0;
+			for (auto& kv : sm) {
+				VF_CHECK(cstr(ks[i]) == kv.first, "Dic<double>(Dic<int>): keys()[", i, "] is ", vf::show(cstr(ks[i])), ", expected ", vf::show(kv.first));
+				const double* p = dd.find(String(kv.first.c_str()));
+				VF_CHECK(p && *p == (double)kv.second, "Dic<double>(Dic<int>): key ", vf::show(kv.first), " not found or wrong value");
+				i++;
+			}
+			check_conv_str(d, sm, probes, "Dic<int>(Map<int,int>)", o);
+		}
+	}
+	// (2) double keys -> int keys: k/2 truncates, so several source keys merge into one.  Which of the merging values survives is not
+	// documented; only: length, strict ascent, lookups consistent with the enumeration, each distinct converted key once, value is one
+	// of the merging source values.
+	{
+		const char* what = "Map<int,int>(Map<double,int>)";
+		Map<double, int> src;
+		std::map<int, std::set<int>> mm;
+		for (auto& kv : m) {
+			double dk = kv.first * 0.5;
+			src[dk] = kv.second;
+			mm[(int)dk].insert(kv.second);
+		}
+		VF_CHECK(src.length() == (int)m.size(), "Map<double,int> source has ", src.length(), " keys, expected ", m.size());
+		if (mm.size() < m.size())
+			F.conv_merged++;
+		Map<int, int> mi(src);
+		VF_CHECK(mi.length() == (int)mm.size(), what, ": length() = ", mi.length(), " but the ", m.size(), " source keys convert to ", mm.size(), " distinct keys");
+		std::map<int, int> got;
+		int prev = 0;
+		for (Map<int, int>::Enumerator e = mi.all(); e; ++e) {
+			int k = ~e;
+			VF_CHECK(got.empty() || prev < k, what, ": enumeration is not strictly ascending: key ", prev, " is followed by ", k);
+			VF_CHECK(mm.count(k), what, ": enumerates key ", k, " to which no source key converts");
+			VF_CHECK(mm[k].count(*e), what, ": value ", *e, " of key ", k, " is not the value of any source key converting to it");
+			got[k] = *e;
+			prev = k;
+		}
+		VF_CHECK(got.size() == mm.size(), what, ": enumeration visits ", got.size(), " distinct keys, expected ", mm.size());
+		for (auto& kv : got) {
+			const int* p = mi.find(kv.first);
+			VF_CHECK(mi.has(kv.first) && p && *p == kv.second, what, ": lookup of enumerated key ", kv.first, " is inconsistent with the enumeration");
+		}
+		for (int u : probes)
+			if (!mm.count(u))
+				VF_CHECK(!mi.has(u), what, ": absent key ", u, " is found");
+		if (!got.empty()) {
+			auto nth = [&](long long j) {
+				long long n = (long long)got.size();
+				auto it = got.begin();
+				std::advance(it, (size_t)(((j % n) + n) % n));
+				return it->first;
+			};
+			int k1 = nth(o.i(1)), k3 = nth(o.i(3));
+			mi[k1] = 91;
+			got[k1] = 91;
+			VF_CHECK(mi.length() == (int)got.size() && mi.find(k1) && *mi.find(k1) == 91, what, ": overwriting existing key ", k1, " gives length ", mi.length(), ", expected ",
+			         got.size());
+			bool r = mi.remove(k3);
+			got.erase(k3);
+			VF_CHECK(r && mi.length() == (int)got.size() && !mi.has(k3), what, ": remove of existing key ", k3, " returned ", r, ", length ", mi.length(), ", expected ",
+			         got.size(), ", still has ", mi.has(k3));
+			Map<int, int> ref;
+			for (auto it = got.rbegin(); it != got.rend(); ++it)
+				ref[it->first] = it->second;
+			VF_CHECK(mi == ref && ref == mi, what, ": the converted map does not compare equal to a map with the same entries built by plain insertions");
+		}
+	}
+}
 
 template <class C, class K, class V, bool ORD>
 struct MapRun {
@@ -510,6 +672,43 @@ struct MapRun {
 			check(s, "cloneow");
 			do_eq(s, t, "cloneow");
 			return;
+		}
+		else if (n == "clonemove") { // the two differ in ONE KEY only, and that key carries the default value on both sides
+			int t = slotOf(o.i(2));
+			if (t == s)
+				t = (s + 1) % 3;
+			MK kj;
+			if (!nthkey(s, o.i(3), kj))
+				return;
+			probe(mk);
+			probe(kj);
+			pre_mut(s, kj, false);
+			c[Conv<K>::to(kj)] = V();
+			m[kj] = MV();
+			*slot[t] = c.clone();
+			model[t] = m;
+			F.clones++;
+			F.cloned[s] = F.cloned[t] = true;
+			pre_mut(t, kj, true);
+			slot[t]->remove(Conv<K>::to(kj));
+			model[t].erase(kj);
+			(void)(*slot[t])[Conv<K>::to(mk)]; // inserts the default value when absent
+			model[t].emplace(mk, MV());
+			if (model[s].size() == model[t].size() && model[s] != model[t])
+				F.eq_default_moved++;
+			check(t, "clonemove");
+			check(s, "clonemove");
+			do_eq(s, t, "clonemove");
+			return;
+		}
+		else if (n == "conv") { // converting constructors from this map (Map<int,int> only)
+			if constexpr (ORD && std::is_same<K, int>::value && std::is_same<V, int>::value) {
+				check_conversions(c, m, universe, o, F);
+				check(s, "conv"); // the source is unchanged
+				return;
+			}
+			else
+				return;
 		}
 		else if (n == "dup") {
 			c.dup();
@@ -1202,6 +1401,13 @@ static void record(const std::string& part, const vf::Case& c, const Flags& F)
 	cl("clone_then_mutate", F.clone_then_mut > 0);
 	cl("eq_equal", F.eq_equal > 0);
 	cl("eq_unequal_same_length", F.eq_unequal_samelen > 0);
+	if (part[0] != 's')
+		cl("eq_unequal_one_default_valued_key_moved", F.eq_default_moved > 0);
+	if (part == "map_ii") {
+		cl("conv", F.convs > 0);
+		cl("conv_key_order_changed", F.conv_reordered > 0);
+		cl("conv_keys_merged", F.conv_merged > 0);
+	}
 	if (is_hash(part)) {
 		cl("chain>=2_overwrite_or_remove", F.chain_mut > 0);
 		cl("chain_head_removed", F.head_rm > 0);
@@ -1496,8 +1702,11 @@ rc::Gen<vf::Op> opgen(Cfg g)
 			o.name = "copy";
 		else if (w < 82) {
 			if (g.ord) {
-				o.name = *gen::elementOf(std::vector<std::string>{"add", "add", "add", "keys", "init"});
-				if (o.name == "init") {
+				o.name = *gen::elementOf(g.strkey ? std::vector<std::string>{"add", "add", "add", "keys", "init"}
+				                                  : std::vector<std::string>{"add", "add", "add", "keys", "init", "conv", "conv"});
+				if (o.name == "conv")
+					o.a = {s, *vf::irange<int>(0, 400), *vf::irange<int>(0, 400), *vf::irange<int>(0, 400)};
+				else if (o.name == "init") {
 					setkey();
 					setval();
 					o.a[3] = *vf::irange<int>(0, 1);
@@ -1519,10 +1728,18 @@ rc::Gen<vf::Op> opgen(Cfg g)
 			o.a = {s, t, g.ord ? 0 : tsize(), *vf::irange<int>(0, 40)};
 		}
 		else if (w < 96) {
-			o.name = "cloneow";
-			setval();
-			o.a[1] = t;
-			o.a[3] = *vf::irange<int>(0, 400);
+			if (*vf::irange<int>(0, 2) == 0) {
+				o.name = "clonemove";
+				setkey();
+				o.a[2] = t;
+				o.a[3] = *vf::irange<int>(0, 400);
+			}
+			else {
+				o.name = "cloneow";
+				setval();
+				o.a[1] = t;
+				o.a[3] = *vf::irange<int>(0, 400);
+			}
 		}
 		else
 			many("many");
